@@ -2,6 +2,7 @@
 //! code (built from /repo's working tree) on it, and prints `<request> => <implementation answer>`.
 //! Panics of the implementation are an output (`PANIC <class>`), not a crash of the harness.
 mod fam_constr;
+mod fam_feat;
 mod fam_nms;
 mod fam_vote;
 mod wire;
@@ -26,6 +27,7 @@ fn exec(ctx: &mut Ctx, line: &str) -> String {
         "nms" => fam_nms::exec(ctx, &mut t),
         "constr" => fam_constr::exec(ctx, &mut t),
         "vote" => fam_vote::exec(ctx, &mut t),
+        "feat" => fam_feat::exec(ctx, &mut t),
         _ => format!("UNKNOWN-FAMILY {fam}"),
     }
 }
